@@ -3,7 +3,7 @@ from __future__ import annotations
 
 from . import engine as E
 from . import symnp as np
-from .pdcore import (C_EQ, NAN, DType, Index, MultiIndex, all_concrete, default_index, hashable_key, infer_dtype, is_na,
+from .pdcore import (INT_BITS, C_EQ, NAN, DType, Index, MultiIndex, all_concrete, default_index, hashable_key, infer_dtype, is_na,
                      same_label, sort_positions, truth)
 from .pdseries import _STICKY, Series, _is_listlike, _is_mask, _mask_cells, _round_cell
 
@@ -1039,6 +1039,37 @@ class _Loc:
                     for j, i in enumerate(pos):
                         df._data[c][i] = vv[j]
         for c in cols:
+            if df._dt.get(c) in INT_BITS:
+                # pandas 3.0 / numpy 2: setting into a narrow integer column keeps the dtype; an integer *array* (list,
+                # ndarray, Series) must have a dtype that casts safely into the column's (checked by dtype, not by
+                # value), a scalar must fit by value; otherwise TypeError("Invalid value ... for dtype ...")
+                bits = INT_BITS[df._dt[c]]
+                src = None
+                if isinstance(v, (Series, np.ndarray)):
+                    src = v._dtype or getattr(v.dtype, "name", None)
+                elif isinstance(v, DataFrame):
+                    src = None
+                elif _is_listlike(v) and not isinstance(v, (str, bytes, dict)):
+                    src = "int64" if all(isinstance(x, int) and not isinstance(x, bool) for x in v) else None
+                if src is not None and str(src).startswith("int"):
+                    if INT_BITS.get(str(src), 64) > bits:
+                        raise TypeError(f"Invalid value '{[df._data[c][i] for i in pos]}' for dtype '{df._dt[c]}'")
+                    continue
+                keep = src is None and not _is_listlike(v)
+                if isinstance(v, int) and not isinstance(v, bool) and not (-(1 << (bits - 1)) <= v < (1 << (bits - 1))):
+                    raise TypeError(f"Invalid value '{v}' for dtype '{df._dt[c]}'")      # also with no row selected
+                for i in pos:
+                    x = df._data[c][i]
+                    if isinstance(x, bool) or isinstance(x, str):
+                        raise TypeError(f"Invalid value '{x}' for dtype '{df._dt[c]}'")
+                    if is_na(x) or isinstance(x, float):
+                        keep = False
+                    elif isinstance(x, int) and not (-(1 << (bits - 1)) <= x < (1 << (bits - 1))):
+                        raise TypeError(f"Invalid value '{x}' for dtype '{df._dt[c]}'")
+                    elif not isinstance(x, int):
+                        keep = False        # symbolic scalar: width undecided, fall back to inference (int64)
+                if keep:
+                    continue
             if df._dt.get(c) not in _STICKY:
                 df._dt[c] = None
             elif df._dt.get(c) == "str" and not all(isinstance(x, str) or is_na(x) for x in df._data[c]):
